@@ -45,7 +45,8 @@ class Responder:
         self.addr = (spec["ip"], SPA_PORT)
         self.ident = spec["ident"].encode("latin1")
         self.name = spec["name"]
-        self.payload = GeckoHelloProtocolHandler.response(self.ident, self.name).send_bytes
+        # the reply is built here, independently of the library's encoder: <HELLO>identifier|name</HELLO>, name in latin-1
+        self.payload = b"<HELLO>" + self.ident + b"|" + self.name.encode("latin-1") + b"</HELLO>"
         self.n = 0
         world.net.bind(self.addr, self)
 
